@@ -172,7 +172,19 @@ const MAX_LINES: usize = 48;
 const MAX_COLS: usize = 90;
 
 pub fn execute(v: &Value) -> String {
-    let text = v["text"].as_str().unwrap();
+    // "via_edit": the text under test is the server's own rendering F of the given text T, and the
+    // graph the line map is read from REACHED F through an edit: a Database loaded with T (another
+    // layout of the same note) receives update_document(F).  Everything below is about F.
+    let given = v["text"].as_str().unwrap();
+    let via_edit = v["via_edit"].as_bool().unwrap_or(false);
+    let opts = || MarkdownOptions { refs_extension: String::new() };
+    let formatted: Option<String> = if via_edit {
+        catch_unwind(AssertUnwindSafe(|| {
+            let st: State = vec![("n".to_string(), given.to_string())].into_iter().collect();
+            Graph::import(&st, opts()).to_markdown(&Key::from_file_name("n"))
+        })).ok().filter(|f| f != given)
+    } else { None };
+    let text: &str = match &formatted { Some(f) => f.as_str(), None => given };
     let evs = catch_unwind(AssertUnwindSafe(|| events(text))).unwrap_or_default();
     let doc = catch_unwind(AssertUnwindSafe(|| MarkdownReader::new().document(text)));
 
@@ -223,20 +235,31 @@ pub fn execute(v: &Value) -> String {
     // the note imported alone: line ranges of its nodes (by node id) and get_node_id_at per line
     let key = Key::from_file_name("n");
     let state: State = vec![("n".to_string(), text.to_string())].into_iter().collect();
-    let imported = catch_unwind(AssertUnwindSafe(|| Graph::import(&state, MarkdownOptions { refs_extension: String::new() })));
+    let imported = catch_unwind(AssertUnwindSafe(|| match &formatted {
+        None => Graph::import(&state, opts()),
+        Some(f) => {
+            let st: State = vec![("n".to_string(), given.to_string())].into_iter().collect();
+            let mut db = liwe::database::Database::new(st, true, opts());
+            db.update_document(key.clone(), f.clone());
+            db.graph().clone()
+        }
+    }));
     let (map_term, node_at) = match &imported {
         Err(e) => (gres(Err(panic_msg_ref(e))), vec![]),
         Ok(g) => {
+            // node ids are reported relative to the note's root (0 for a note imported alone; the
+            // rebuilt note of an edited graph sits behind the tombstones of its first version)
+            let off = catch_unwind(AssertUnwindSafe(|| g.get_document_id(&key))).unwrap_or(0);
             let mut map = vec![];
-            for id in 0..g.nodes().len() as u64 {
+            for id in off..g.nodes().len() as u64 {
                 if let Some(r) = g.node_line_range(id) {
-                    map.push(format!("({}, {})", id, lr(&r)));
+                    map.push(format!("({}, {})", id - off, lr(&r)));
                 }
             }
             let mut at = vec![];
             for (line, _) in &rows {
                 let id = catch_unwind(AssertUnwindSafe(|| (&*g).get_node_id_at(&key, *line))).unwrap_or(None);
-                at.push(gopt(id.map(gn)));
+                at.push(gopt(id.map(|i| gn(i.saturating_sub(off)))));
             }
             (gres(Ok(glist(&map))), at)
         }
@@ -386,7 +409,12 @@ pub fn generate(rng: &mut Rng, thorough: bool) -> Vec<Value> {
             7 | 8 => ("structural", structural(rng, false)),
             _ => ("malformed", malformed(rng)),
         };
-        out.push(json!({"text": text, "kind": kind}));
+        // every fourth well-formed text is checked as the server writes it, on a graph that reached it by an edit
+        if i % 4 == 1 && kind != "malformed" {
+            out.push(json!({"text": text, "kind": kind, "via_edit": true}));
+        } else {
+            out.push(json!({"text": text, "kind": kind}));
+        }
     }
     out
 }
@@ -396,5 +424,5 @@ pub fn label(v: &Value) -> String {
     let eol = if t.contains("\r\n") { "crlf" } else if t.contains('\r') { "cr" } else { "lf" };
     let chars = if t.chars().any(|c| (c as u32) >= 0x10000) { "astral" } else if !t.is_ascii() { "non-ascii" } else { "ascii" };
     let fin = if t.ends_with('\n') { "nl" } else { "no-nl" };
-    format!("{}:{}:{}:{}", v["kind"].as_str().unwrap_or("?"), eol, chars, fin)
+    format!("{}{}:{}:{}:{}", v["kind"].as_str().unwrap_or("?"), if v["via_edit"].as_bool().unwrap_or(false) { "+via-edit" } else { "" }, eol, chars, fin)
 }
